@@ -962,7 +962,9 @@ def pedersen_blind_generator_blind_sum(
     values, gens, vbfs, num_inputs, context=_secp.ctx
 ):
     vals = (c_uint64 * len(values))(*values)
-    vbf = bytes(vbfs[-1])
+    # the last blinding factor is overwritten by the library: work on a copy
+    # (bytes(x) of a bytes object is x itself)
+    vbf = _copy(vbfs[-1])
     p = c_char_p(vbf)  # obtain a pointer of various types
     address = cast(p, c_void_p).value
 
